@@ -86,3 +86,34 @@ Theorem C10_pinned_member :
       verify_proof (tp_hl T) (tp_hm T) (mz_root T m) pr (hash_of_z k) (hash_of_z vh) = true.
 Proof. exact pinned_member. Qed.
 Print Assumptions C10_pinned_member.
+
+(* The Value returned with a proof is hashed with the MERKLIZER's hasher, whatever hasher the
+   caller's path carries (for every merklizer value, default hasher and path): its hasher
+   field is the merklizer's, its MtEntry is mkValueMtEntry under that hasher of the value of
+   the entry stored under the path's key. *)
+Theorem C10_proof_value_hasher :
+  forall (T : tparams) (Hd : hasher) (m : mz) (p : path) (pr : proof) (v : value),
+  mz_proof T Hd m p = Ok (pr, Some v) ->
+  v_hasher v = Some (mz_hasher m) /\
+  value_mt_entry v = mk_value_entry (mz_hasher m) (v_val v) /\
+  exists k e, path_mt_entry Hd p = Ok k /\ assoc Z.eqb k (mz_entries m) = Some e /\ v_val v = re_val e.
+Proof. exact proof_value_hasher. Qed.
+Print Assumptions C10_proof_value_hasher.
+
+(* Proof depends on the path only through its key *)
+Theorem C10_proof_path_hasher_independent :
+  forall (T : tparams) (Hd Hd' : hasher) (m : mz) (p p' : path),
+  path_mt_entry Hd p = path_mt_entry Hd' p' ->
+  mz_proof T Hd m p = mz_proof T Hd' m p'.
+Proof. exact proof_path_hasher_independent. Qed.
+Print Assumptions C10_proof_path_hasher_independent.
+
+(* the seeded variant (Value hashed with the path's hasher) is refuted by a concrete
+   merklizer: same key, leaf 96 = 101 - 5, variant value 98 = 103 - 5 *)
+Theorem C10_variant_j_refuted :
+  exists pr v vj,
+    mz_proof toyT hashA toyM (mkpath [PStr "a"%string] (Some hashB)) = Ok (pr, Some v) /\
+    mz_proof_variant_j toyT hashA toyM (mkpath [PStr "a"%string] (Some hashB)) = Ok (pr, Some vj) /\
+    value_mt_entry v = Ok 96 /\ value_mt_entry vj = Ok 98.
+Proof. exact LeafPinned.variant_j_refuted. Qed.
+Print Assumptions C10_variant_j_refuted.
